@@ -779,6 +779,12 @@ func (i *importer) importSignal(dbcSig *dbc.Signal, dbcMsgID uint32) (Signal, er
 			sigEnum.SetMinSize(dbcSigSize)
 		}
 
+		// a value description that does not fit in the bits of the signal
+		// would make the signal larger than the file says
+		if enumSig.GetSize() > dbcSigSize {
+			return nil, i.errorf(dbcSig, &SignalSizeError{Size: dbcSigSize, Err: ErrTooSmall})
+		}
+
 		sig = enumSig
 
 	} else {
